@@ -18,11 +18,79 @@ DECIDES = ('On the FSM of USBResetSequencer, states identified by what they do (
            'else holds; (d) every bus_reset site is guarded by ~vbus_connected or by timer == C with C = 5us (LS/FS '
            'operation), 2.5us (suspended) or 200us in the discrimination state that is entered only after 3 ms of SE0 at '
            'high speed, in states that clear the timer whenever the line is not SE0; (e) suspend is entered only at '
-           'line_state_time == 3 ms (cleared on ~bus_idle) or through the HS discrimination state on J; (f) counters cover '
+           'line_state_time == 3 ms (cleared on ~bus_idle) or through the HS discrimination state on J, and the registered '
+           'flag tested on the resume edge into high speed is, by forward dataflow of its possible values over the whole '
+           'FSM, certainly 1 after the entry from the discrimination state and certainly 0 after every other entry into '
+           'suspend; (f) counters cover '
            '3 ms. ')
 NOT_DECIDED = 'glitch-level line-state histories and the analog side of chirping.'
 US = 60          # cycles per microsecond at the 60 MHz UTMI clock
 LS, FS = 'self.low_speed_only', 'self.full_speed_only'
+
+
+def _flag_flow(ir, fsm, flag):
+    """Possible values of a 1-bit register in every FSM state, by forward dataflow to a fixpoint.  Returns
+    (after, possible): after(edge, values_before) = set of values the register can hold once `edge` was taken."""
+    drv = sorted(ir.drivers(flag, exact=True), key=lambda a: a.order)
+
+    def vals(a):
+        return {a.rhs.val & 1} if isinstance(a.rhs, E) and a.rhs.op == 'const' else {0, 1}
+
+    def consistent(g, h):
+        d = dict(h)
+        return all(d.get(k, v) == v for k, v in g)
+
+    def after(e, before):
+        g = q.atoms(e)
+        here = [a for a in drv if a.state is None or a.state == e.state]
+        sure = [a for a in here if q.atoms(a) <= g]
+        out = set()
+        if sure:
+            last = sure[-1]
+            out |= vals(last)
+            later = [a for a in here if a.order > last.order and a not in sure and consistent(q.atoms(a), g)]
+        else:
+            out |= set(before)
+            later = [a for a in here if consistent(q.atoms(a), g)]
+        for a in later:
+            out |= vals(a)
+        return out
+
+    si = ir.signals[flag]
+    possible = {s: set() for s in fsm.states}
+    possible[fsm.init] = {(si.init or 0) & 1}
+    changed = True
+    while changed:
+        changed = False
+        for s in fsm.states:
+            if not possible[s] and s != fsm.init:
+                continue
+            # staying in s: any writer of the flag in s may fire
+            stay = set(possible[s])
+            for a in drv:
+                if a.state is None or a.state == (fsm.id, s):
+                    stay |= vals(a)
+            # (only writers that can fire without leaving matter, adding all of them is a sound over-approximation
+            #  for the state itself; edges are evaluated exactly against the values on entry)
+            for e in fsm.out_edges(s):
+                new = after(e, possible[s] | (stay if _can_stay_and_write(fsm, s, drv, e) else set()))
+                if not new <= possible[e.dst]:
+                    possible[e.dst] |= new
+                    changed = True
+    return after, possible
+
+
+def _can_stay_and_write(fsm, s, drv, e):
+    """True when some writer of the flag in state s can fire in a cycle in which the FSM stays in s (then the value on a
+    later edge out of s may be the written one)."""
+    for a in drv:
+        if a.state is not None and a.state != (fsm.id, s):
+            continue
+        ga = q.atoms(a)
+        # the writer fires together with an edge leaving s whenever its guard contains that edge's guard
+        if not any(q.atoms(x) <= ga for x in fsm.out_edges(s) if x.dst != s):
+            return True
+    return False
 
 
 def run(ctx):
@@ -175,6 +243,20 @@ def run(ctx):
             ok = e.src == lsfs_run and q.has(e, T3)
         ctx.ob('C19.suspend-entry', 'USBResetSequencer.%s->suspended' % R(e.src), ok, e.loc,
                'suspend only after 3 ms of continuous idle (or J after the HS discrimination): %s' % q.fmt(e))
+    # (e') the resume-to-high-speed flag (the register tested on the suspend -> high-speed edge) must say how suspend was
+    # entered: forward dataflow of its possible values {0, 1} over the FSM (last assignment wins on every edge)
+    flags = {a_ for e in fsm.in_edges(hs_set) if e.src == susp for a_, p_ in q.atoms(e) if p_ and a_ in ir.signals
+             and ir.signals[a_].w == 1 and any(d.domain != 'comb' for d in ir.drivers(a_, exact=True))}
+    ctx.need(len(flags) == 1, 'the registered flag tested on the resume edge into high speed (found %s)' % sorted(flags))
+    flag = flags.pop()
+    after, possible = _flag_flow(ir, fsm, flag)
+    for e in fsm.in_edges(susp):
+        want_v = {1} if e.src == detect else {0}
+        got = after(e, possible[e.src])
+        ctx.ob('C19.resume-flag', 'USBResetSequencer.%s->suspended.flag' % R(e.src), got == want_v, e.loc,
+               'when suspend is entered from the %s state the flag %s (which sends a resume back to high speed) must be %d '
+               'whatever happened before; possible values after this edge: %s (possible values in the %s state: %s)' % (
+                   R(e.src), flag, min(want_v), sorted(got), R(e.src), sorted(possible[e.src])))
     clr = [c for c in ir.drivers('line_state_time', exact=True) if c.state == (fsm.id, lsfs_run) and q.is_zero(c.rhs)
            and q.atoms(c) == {('bus_idle', False)}]
     ctx.ob('C19.idle-continuous', 'USBResetSequencer.line_state_time-clear@lsfs-run', len(clr) == 1, None,
